@@ -38,6 +38,8 @@ type RunSpec struct {
 	Claim        string   `json:"claim"`
 	NoReplay     bool     `json:"noReplay"`
 	Solver       string   `json:"solver"`
+	Opaque       []string `json:"opaque"`
+	Canonical    bool     `json:"canonical"`
 }
 
 type PropSpec struct {
@@ -266,7 +268,7 @@ func cmdCheck(args []string) int {
 			return 3
 		}
 		cfg := &RunConfig{Harness: rs.Entry, PkgDir: rs.Pkg, Preempt: tc.Preempt, EnvEvents: tc.Env, AllMapOrders: rs.AllMapOrders,
-			Race: rs.Race, StepBound: 3_000_000, Sequential: rs.Sequential, Params: tc.Params, MaxPaths: 50_000_000, Solver: rs.Solver}
+			Race: rs.Race, StepBound: 3_000_000, Sequential: rs.Sequential, Params: tc.Params, MaxPaths: 50_000_000, Solver: rs.Solver, Opaque: rs.Opaque, Canonical: rs.Canonical}
 		budget := time.Duration(tc.BudgetS) * time.Second
 		if budget == 0 {
 			budget = 10 * time.Minute
@@ -306,6 +308,8 @@ func cmdRun(args []string) int {
 	params := fs.String("params", "", "k=v,k=v")
 	solverName := fs.String("solver", "", "z3 (default) or cvc5")
 	trailArg := fs.String("trail", "", "replay exactly one path: comma separated decisions")
+	opaqueArg := fs.String("opaque", "", "comma separated external functions returning zero values")
+	canonical := fs.Bool("canonical", false, "one canonical schedule")
 	if len(args) < 3 {
 		fmt.Println("usage: gosym run <pkgdir> <harnessfile[,file]> <entry> [flags]")
 		return 2
@@ -344,6 +348,10 @@ func cmdRun(args []string) int {
 	}
 	cfg := &RunConfig{Harness: entryName, PkgDir: pkgDir, Preempt: *preempt, EnvEvents: *env, AllMapOrders: *orders, Race: *race,
 		StepBound: 3_000_000, Params: pm, MaxPaths: 50_000_000, Solver: *solverName}
+	if *opaqueArg != "" {
+		cfg.Opaque = strings.Split(*opaqueArg, ",")
+	}
+	cfg.Canonical = *canonical
 	if *trailArg != "" {
 		var tr []int
 		for _, x := range strings.Split(strings.Trim(*trailArg, "[]"), ",") {
